@@ -81,10 +81,14 @@ func ensureFileExists(path string, mode os.FileMode) error {
 	if !errors.Is(err, os.ErrNotExist) {
 		return err
 	}
-	if err := os.WriteFile(path, []byte{}, mode); err != nil {
+	// Create without truncating: between the stat above and this open another
+	// process may have created the file and written to it (init racing the
+	// first command of a new store); an existing file is left as it is.
+	file, err := os.OpenFile(path, os.O_WRONLY|os.O_CREATE, mode)
+	if err != nil {
 		return fmt.Errorf("cannot create %s: %w", path, err)
 	}
-	return nil
+	return file.Close()
 }
 
 func newEvent(eventType string, ts time.Time, payload interface{}) (Event, error) {
